@@ -7,15 +7,36 @@ from vf.stage import BuildError
 ID = "C33"
 
 
+def la_expand(d, tok, seen):
+    """what libtool would put on the command line for a .la convenience library: its archive and its dependency_libs"""
+    path = os.path.normpath(os.path.join(d, tok))
+    if path in seen:
+        return []
+    seen.add(path)
+    text = open(path).read()
+    old = re.search(r"^old_library='([^']*)'", text, re.M).group(1)
+    deps = re.search(r"^dependency_libs='([^']*)'", text, re.M).group(1).split()
+    res = [os.path.join(os.path.dirname(path), ".libs", old)]
+    for dep in deps:
+        if dep.endswith(".la"):
+            res += la_expand("/", dep, seen) if os.path.isabs(dep) else la_expand(d, dep, seen)
+        else:
+            res.append(dep)
+    return res
+
+
 def link_whole_squid(stage, out, replace, extra_objs):
-    """link like the tree links `squid`, with some objects replaced: replace = {token in the recipe: replacement or None}"""
+    """link like the tree links `squid`, with some objects replaced: replace = {token in the recipe: replacement or None}.
+    The recipe is read from make; libtool itself is bypassed (its shell script needs a minute for this command line)."""
     d = os.path.join(stage.repo, "src")
     r = subprocess.run(["make", "-n", "-W", "main.cc", "squid"], cwd=d, capture_output=True, text=True)
     lines = [l for l in r.stdout.splitlines() if "-o squid " in l and "--mode=link" in l]
     if not lines:
         raise BuildError("no link recipe for squid\n" + r.stderr[-2000:])
-    res, skip = [], False
-    for tk in shlex.split(lines[0].strip()):
+    toks = shlex.split(lines[0].strip())
+    toks = toks[toks.index("--mode=link") + 1:]
+    res, skip, seen = [], False, set()
+    for tk in toks:
         if skip:
             skip = False
             continue
@@ -23,13 +44,14 @@ def link_whole_squid(stage, out, replace, extra_objs):
             res += ["-o", out]
             skip = True
             continue
-        if tk in ("-Werror", "-export-dynamic", "force"):
-            continue
-        if tk == "-dlopen":     # "-dlopen force" makes libtool nm every object (40 s); nothing here dlopens the program itself
-            continue
+        if tk in ("-Werror", "-export-dynamic", "force", "-dlopen"):
+            continue    # "-dlopen force" = libtool's preloaded-symbols table; the harness supplies an empty one
         if tk in replace:
             if replace[tk]:
                 res.append(replace[tk])
+            continue
+        if tk.endswith(".la"):
+            res += la_expand(d, tk, seen)
             continue
         res.append(tk)
         if tk == "globals.o":
@@ -47,11 +69,13 @@ def build_exe(stage):
         built = stage.built = {}
     if "c33" in built:
         return built["c33"]
-    with ThreadPoolExecutor(max_workers=3) as ex:
-        f1 = ex.submit(stage.compile, os.path.join(VERIF, "harness", "c33.cc"))
-        f2 = ex.submit(stage.compile, "src/main.cc", None, False, ["-Dmain=squid_main_unused"])
+    # main.o of the tree with its main() renamed (the harness brings its own)
+    o2 = os.path.join(stage.work, "main_renamed.o")
+    subprocess.run(["objcopy", "--redefine-sym", "main=squid_main_unused", os.path.join(stage.repo, "src", "main.o"), o2], check=True)
+    with ThreadPoolExecutor(max_workers=2) as ex:
+        f1 = ex.submit(stage.compile, os.path.join(VERIF, "harness", "c33.cc"), None, True, ["-O0", "-g1"])
         f3 = ex.submit(stage.compile, "src/html/Quoting.cc")
-        o1, o2, o3 = f1.result(), f2.result(), f3.result()
+        o1, o3 = f1.result(), f3.result()
     exe = link_whole_squid(stage, os.path.join(stage.work, "c33"), {"errorpage.o": None, "main.o": None, "html/libhtml.la": o3}, [o1, o2])
     built["c33"] = exe
     return exe
@@ -580,7 +604,9 @@ class E2E:
             user = mode + b"-" + sid
             if kind == "ftp-user":
                 user += b"-" + bytes(c for c in pay if c not in b" /?#@:[]\\\r\n\t%" and 32 < c < 127)[:150]
-            return b"GET ftp://%s:pw@127.0.0.1:%d/d%s/ HTTP/1.1\r\nHost: x\r\n\r\n" % (user, self.ftp.port, bytes(c for c in q(pay) if c != 47))
+            # the path goes to the stub in CWD commands: printable bytes only, so that the FTP dialogue itself stays well-formed
+            path = bytes(c for c in pay if 32 < c < 127 and c not in b"/%?#")[:200]
+            return b"GET ftp://%s:pw@127.0.0.1:%d/d%s/ HTTP/1.1\r\nHost: x\r\n\r\n" % (user, self.ftp.port, q(path))
         return None
 
     def one(self, line):
@@ -660,7 +686,8 @@ def e2e_oracle(line, impl):
     m = re.match(r"(\d+) (\S+) raw=(\d+) esc=(\d+)$", impl)
     if not m:
         return "no usable observation: " + impl
-    if m.group(2) != KINDS[kind] and not (m.group(2) in EARLY and kind not in ("vfall-hdr", "vfall-user") and not kind.startswith("ftp-")):
+    alt = ("ERR_FTP_FAILURE",) if kind.startswith("ftp-") else EARLY if kind not in ("vfall-hdr", "vfall-user") else ()
+    if m.group(2) != KINDS[kind] and m.group(2) not in alt:
         return "scenario did not reach the intended error page (%s): %s" % (KINDS[kind], impl)
     if int(m.group(3)):
         return "the payload appears with a raw markup character in the error page / Location header"
@@ -672,3 +699,11 @@ def compare(line, impl, model):
         m = re.search(r"raw=(\d+)", impl)
         return bool(m) and model == "raw=" + m.group(1)
     return impl == model
+
+
+def shrink(line):
+    """end-to-end scenarios are small and slow to re-run: only in-process lines are minimised (generic hex-token delta debugging)"""
+    if line.startswith("w "):
+        return
+    from vf.run import default_shrink
+    yield from default_shrink(line)
